@@ -1,7 +1,7 @@
 // Command c11 executes sticky-session scenarios against the real roundrobin / stickycookie packages,
 // through net/http (http.SetCookie on the way out, Request.Cookie on the way in).
 //
-//	cfg lb=rr|rb codec=<spec> [name=<esc>] [via=rec|srv] [opts=0|1]
+//	cfg lb=rr|rb codec=<spec> [name=<esc>] [via=rec|srv] [opts=0|1] [verbose=0|1]
 //	upsert <esc-url> [w]        -> ok <esc-url>,<weight now>,<key> | err badurl | err <msg>
 //	remove <esc-url>            -> ok <key> | err notfound | err badurl      (<key> = <esc scheme>|<esc host>|<esc path>)
 //	upsert-inner / remove-inner -> as upsert / remove, but on the RoundRobin wrapped by the Rebalancer (lb=rb) directly
@@ -698,9 +698,14 @@ func main() {
 		})
 		s := &h{name: name, cur: sp, ss: ss}
 		kind, _ := hx.KV(cfg, "lb")
+		verbose := hx.KVInt(cfg, "verbose", 0) == 1 // the balancer's diagnostics (request dump) must not touch the request
 		switch kind {
 		case "rr":
-			rr, err := roundrobin.New(backend, roundrobin.EnableStickySession(ss), roundrobin.ErrorHandler(eh))
+			lbo := []roundrobin.LBOption{roundrobin.EnableStickySession(ss), roundrobin.ErrorHandler(eh)}
+			if verbose {
+				lbo = append(lbo, roundrobin.Verbose(true), roundrobin.Logger(&utils.NoopLogger{}))
+			}
+			rr, err := roundrobin.New(backend, lbo...)
 			if err != nil {
 				return nil, "err " + err.Error()
 			}
@@ -711,7 +716,11 @@ func main() {
 			if err != nil {
 				return nil, "err " + err.Error()
 			}
-			rb, err := roundrobin.NewRebalancer(rr, roundrobin.RebalancerStickySession(ss), roundrobin.RebalancerErrorHandler(eh))
+			rbo := []roundrobin.RebalancerOption{roundrobin.RebalancerStickySession(ss), roundrobin.RebalancerErrorHandler(eh)}
+			if verbose {
+				rbo = append(rbo, roundrobin.RebalancerDebug(true), roundrobin.RebalancerLogger(&utils.NoopLogger{}))
+			}
+			rb, err := roundrobin.NewRebalancer(rr, rbo...)
 			if err != nil {
 				return nil, "err " + err.Error()
 			}
